@@ -262,6 +262,21 @@ theorem predictor_rt (pr : Option Parms) (y z : Bytes) (h : PredEncodes pr y z) 
     simp only [h1, h2, Bool.false_eq_true, if_false, ge_iff_le, h10, if_true]
     exact png_rt _ _ _ hb rows fts hrows hlen hfts
 
+/-- The five supported filters are recognised under their full and their abbreviated names
+(FlateDecode, Fl, LZWDecode, LZW, ASCII85Decode, A85, ASCIIHexDecode, AHx, RunLengthDecode, RL), as byte strings, in the tuples regenerated from pdftypes.py. -/
+theorem filter_names :
+    [70, 108, 97, 116, 101, 68, 101, 99, 111, 100, 101] ∈ LITERALS_FLATE_DECODE ∧
+    [70, 108] ∈ LITERALS_FLATE_DECODE ∧
+    [76, 90, 87, 68, 101, 99, 111, 100, 101] ∈ LITERALS_LZW_DECODE ∧
+    [76, 90, 87] ∈ LITERALS_LZW_DECODE ∧
+    [65, 83, 67, 73, 73, 56, 53, 68, 101, 99, 111, 100, 101] ∈ LITERALS_ASCII85_DECODE ∧
+    [65, 56, 53] ∈ LITERALS_ASCII85_DECODE ∧
+    [65, 83, 67, 73, 73, 72, 101, 120, 68, 101, 99, 111, 100, 101] ∈ LITERALS_ASCIIHEX_DECODE ∧
+    [65, 72, 120] ∈ LITERALS_ASCIIHEX_DECODE ∧
+    [82, 117, 110, 76, 101, 110, 103, 116, 104, 68, 101, 99, 111, 100, 101] ∈ LITERALS_RUNLENGTH_DECODE ∧
+    [82, 76] ∈ LITERALS_RUNLENGTH_DECODE := by
+  decide
+
 /-- ASCIIHex stage (either name), any predictor setting. -/
 def stageAhx (inflate : Bytes → Bytes) (name : Bytes) (hn : name ∈ LITERALS_ASCIIHEX_DECODE) (pr : Option Parms) :
     Stage inflate where
